@@ -124,3 +124,17 @@ Print Assumptions C13_empty_neighbours_map.
 Theorem C13_single_child_map : forall st a c, get_map st (SConcat [a]) c = get_map st a c.
 Proof. exact LawMaps.single_child_map. Qed.
 Print Assumptions C13_single_child_map.
+
+(* boxed nesting through map() with hypotheses on the INPUT only *)
+From RS Require Proofs.BoundsPos Proofs.BoundsAll.
+Theorem C13_boxed_nesting_map_input_bounds : forall a b c st,
+  RStreamTree.rshape (SConcat [a; b; c]) = true -> treeA (SConcat [a; b; c]) = true ->
+  BoundsPos.tiny (SConcat [a; b; c]) = true ->
+  attr_of_map (fst (get_map st (SConcat [a; SConcat [b; c]]) true)) (source (SConcat [a; SConcat [b; c]])) true
+  = attr_of_map (fst (get_map st (SConcat [a; b; c]) true)) (source (SConcat [a; b; c])) true /\
+  attr_of_map (fst (get_map st (SConcat [SConcat [a; b]; c]) true)) (source (SConcat [SConcat [a; b]; c])) true
+  = attr_of_map (fst (get_map st (SConcat [a; b; c]) true)) (source (SConcat [a; b; c])) true /\
+  is_none (fst (get_map st (SConcat [a; SConcat [b; c]]) true)) = is_none (fst (get_map st (SConcat [a; b; c]) true)) /\
+  is_none (fst (get_map st (SConcat [SConcat [a; b]; c]) true)) = is_none (fst (get_map st (SConcat [a; b; c]) true)).
+Proof. exact BoundsAll.boxed_nesting_map_tiny. Qed.
+Print Assumptions C13_boxed_nesting_map_input_bounds.
